@@ -4,6 +4,7 @@ import PlasVerif.Proofs.MathJax
 import PlasVerif.Generated.MathTemplates
 import PlasVerif.Properties.C04
 import PlasVerif.Properties.C07
+import PlasVerif.Properties.C02
 import PlasVerif.Model.NoCharsub
 import PlasVerif.Generated.NoCharsub
 /-!
@@ -307,6 +308,54 @@ theorem math_group_digest_repaired (t : Tree) :
   ⟨by rw [paragraphsInMath]; exact PlasVerif.Properties.C07.norm_false_chars t, rfl⟩
 
 end nosub
+
+/-! ## user macros inside formulas (with the C02 expansion model)
+
+"with user macros expanded": the `msrc` stream writes formulas with `\\newcommand` macros of every signature kind
+— among them macros whose expansion is *empty* (`\\newcommand{\\todo}[1]{}`) and macros whose optional argument has an
+*empty default* (`\\newcommand{\\norm}[2][]{…}`).  The two mechanisms live in C02's model (`Model/Macro.lean`:
+`invoke`, the expansion loop's push-back, and `collectNewcommand` = `NewCommand.invoke`); the statements C11 relies on: -/
+
+section usermacros
+open PlasVerif.Model.Macro in
+/-- **An empty expansion leaves nothing in the stream**: when a `\\newcommand` macro's replacement text is empty, the
+    expansion loop continues with the input right after the macro's arguments — no node of the macro itself is
+    yielded (`invoke()` returned `[]`, not `None`) — for every signature, every input, every environment. -/
+theorem user_macro_empty_expansion_leaves_nothing (fx : Bool) (fuel : Nat) (name : PlasVerif.Model.Macro.Name)
+    (nargs : Nat) (opt : Option (List PlasVerif.Model.Macro.Tok)) (rest : List PlasVerif.Model.Macro.Tok)
+    (env env' : PlasVerif.Model.Macro.Env)
+    (h : PlasVerif.Model.Macro.getItem name env = (.newcmd nargs opt (some []), env')) :
+    PlasVerif.Model.Macro.invoke fx (fuel + 1) name rest env
+      = PlasVerif.Model.Macro.next fx fuel ⟨(PlasVerif.Model.Macro.collectNewcommand nargs opt rest).2, env'⟩ := by
+  rw [PlasVerif.Model.Macro.invoke, h]
+  simp [PlasVerif.Model.Macro.invokeNewcommand, PlasVerif.Model.Macro.substBody, PlasVerif.Model.Macro.substGo, Except.map]
+
+/-- **An empty default is still an optional argument**: with `[n][]` the macro looks for `[`; absent, `#1` is the empty
+    token list and the mandatory arguments are read from the same place … -/
+theorem user_macro_empty_default_absent (nargs : Nat) (s : List PlasVerif.Model.Macro.Tok)
+    (h : ∀ t ts, PlasVerif.Spec.TeXMacro.skipBlanks s = t :: ts → PlasVerif.Model.Macro.isOpenBr t = false) :
+    (PlasVerif.Model.Macro.collectNewcommand nargs (some []) s).1[1]? = some (some []) :=
+  PlasVerif.Properties.C02.optional_default nargs [] s h
+
+/-- … present, `#1` is the bracket content. -/
+theorem user_macro_empty_default_present (nargs : Nat) (s ts : List PlasVerif.Model.Macro.Tok) (t : PlasVerif.Model.Macro.Tok)
+    (hs : PlasVerif.Spec.TeXMacro.skipBlanks s = t :: ts) (ht : PlasVerif.Model.Macro.isOpenBr t = true) :
+    (PlasVerif.Model.Macro.collectNewcommand nargs (some []) s).1[1]?
+      = some (some (PlasVerif.Model.Macro.stripDelimited (PlasVerif.Model.Macro.readBracket 1 ts).1)) :=
+  PlasVerif.Properties.C02.optional_present nargs [] s ts t hs ht
+
+/-- kernel-checked on the macros the stream uses: `\\todo{x}+b` → `+b`;  `\\opt{b}x` → `bx` and `\\opt[a]{b}x` → `abx`
+    for `\\newcommand{\\opt}[2][]{#1#2}` -/
+example :
+    PlasVerif.Model.Macro.invokeNewcommand 1 none [] [.ch 1 123, .ch 11 120, .ch 2 125, .ch 12 43, .ch 11 98]
+      = .ok ([], [.ch 12 43, .ch 11 98]) ∧
+    PlasVerif.Model.Macro.invokeNewcommand 2 (some []) [.ch 6 35, .ch 12 49, .ch 6 35, .ch 12 50]
+        [.ch 1 123, .ch 11 98, .ch 2 125, .ch 11 120] = .ok ([.ch 11 98], [.ch 11 120]) ∧
+    PlasVerif.Model.Macro.invokeNewcommand 2 (some []) [.ch 6 35, .ch 12 49, .ch 6 35, .ch 12 50]
+        [.ch 12 91, .ch 11 97, .ch 12 93, .ch 1 123, .ch 11 98, .ch 2 125, .ch 11 120]
+      = .ok ([.ch 11 97, .ch 11 98], [.ch 11 120]) := ⟨rfl, rfl, rfl⟩
+
+end usermacros
 
 /-! ## MathJax payload -/
 
